@@ -3,7 +3,7 @@ import os
 
 from hypothesis import strategies as st
 
-from ..common import REPO, crash_signature, digest, grammar, has_error, is_zero_width, nodes_preorder, short
+from ..common import maybe_disturb, REPO, crash_signature, digest, grammar, has_error, is_zero_width, nodes_preorder, short
 from ..engine import Outcome, Prop
 from ..gen import text as T
 from ..model.conform import Conf
@@ -187,6 +187,7 @@ class C05(Prop):
     def check(self, case):
         code, v = case['code'], case['version']
         try:
+            maybe_disturb(grammar(v), code, v)      # process history: an unfinished earlier call must not matter
             m = grammar(v).parse(code)
             fail, n, shapes = check_tree(conf(v), m)
         except RecursionError:
